@@ -143,7 +143,11 @@ pub fn install_panic_hook() {
 
 /// Runs `f`, converting a panic inside it into a Failure with signature `panic@file:line`.
 pub fn guarded<R>(f: impl FnOnce() -> Result<R, Failure>) -> Result<R, Failure> {
-	match std::panic::catch_unwind(std::panic::AssertUnwindSafe(f)) {
+	// the fault injector is thread-local state of the library: never let it leak between cases
+	parity_db::set_number_of_allowed_io_operations(usize::MAX);
+	let r = std::panic::catch_unwind(std::panic::AssertUnwindSafe(f));
+	parity_db::set_number_of_allowed_io_operations(usize::MAX);
+	match r {
 		Ok(r) => r,
 		Err(_) => {
 			let p = LAST_PANIC.with(|p| p.borrow_mut().take()).unwrap_or_default();
@@ -207,7 +211,11 @@ impl Ctx {
 
 	/// Writes the replay file for a failing case and records the failure.
 	pub fn record_failure<T: Serialize>(&self, sub: &str, case: &T, f: &Failure) {
-		let fp = fingerprint(case);
+		let case = match &f.case_override {
+			Some(c) => c.clone(),
+			None => serde_json::to_value(case).unwrap_or(serde_json::Value::Null),
+		};
+		let fp = fingerprint(&case);
 		let path = self.replay_dir.join(format!("{}-{}-{:016x}.json", self.prop, sub, fp));
 		let doc = serde_json::json!({
 			"property": self.prop,
@@ -370,4 +378,24 @@ pub fn load_replay<T: DeserializeOwned>(path: &Path) -> Result<(String, T), Stri
 pub fn scratch_root() -> PathBuf {
 	let base = if Path::new("/dev/shm").is_dir() { PathBuf::from("/dev/shm") } else { std::env::temp_dir() };
 	base
+}
+
+struct StderrLogger;
+impl log::Log for StderrLogger {
+	fn enabled(&self, _: &log::Metadata) -> bool {
+		true
+	}
+	fn log(&self, record: &log::Record) {
+		eprintln!("[{}] {}", record.level(), record.args());
+	}
+	fn flush(&self) {}
+}
+static LOGGER: StderrLogger = StderrLogger;
+
+/// PDBV_LOG=debug|trace prints the library's log output (debugging of replays only).
+pub fn init_logging() {
+	if let Ok(l) = std::env::var("PDBV_LOG") {
+		let _ = log::set_logger(&LOGGER);
+		log::set_max_level(if l == "trace" { log::LevelFilter::Trace } else { log::LevelFilter::Debug });
+	}
 }
